@@ -347,7 +347,7 @@ fn guarded(f: &(impl Fn(usize, &mut Report) + Sync), i: usize, r: &mut Report) {
             // the operation is total for every input (getters, iterators, comparisons, parsers ...)
             r.fail("unexpected-panic-inside-konst", "konst", format!("work item {}", i), format!("panicked: {}", last), "no panic: the operation is defined for every input".into());
         } else {
-            r.fail("C01:monitor-panicked-on-returned-value", "harness", format!("work item {}: {}", i, last), "monitor code panicked while examining a returned value (see the preceding failure of this item, e.g. invalid UTF-8)".into(), "no panic".into());
+            r.fail("monitor-panicked-on-returned-value", "harness", format!("work item {}: {}", i, last), "monitor code panicked while examining a returned value (see the preceding failure of this item, e.g. invalid UTF-8)".into(), "no panic".into());
         }
     }
 }
